@@ -230,7 +230,8 @@ def run(repo):
             if isinstance(n, ast.Call) and isinstance(n.func, ast.Attribute) and n.func.attr in ('append', 'extend') \
                     and ntext(n.func.value).endswith('exp_constr_indices') and n.args:
                 writers += 1
-                a = n.args[0]
+                from .common import expand_locals
+                a = expand_locals(fi.node, n.args[0])
                 ok = (isinstance(a, ast.Call) and call_name(a) == 'list') or isinstance(a, (ast.List, ast.ListComp))
                 res.functions.add(fi.fq)
                 res.inst({'function': fi.fq, 'event_members_stored_as': ntext(a)[:40], 'plain_list': ok}, ok)
@@ -252,8 +253,9 @@ def run(repo):
         raise AnalysisError('dro.Model.rule_var: no store into self.var_ev_list[s] found')
     for st in stores:
         tgt = ntext(st.targets[0])
+        from .common import expand_locals
         ok = any(isinstance(x, ast.Subscript) and ntext(x) == tgt and x is not st.targets[0]
-                 for x in ast.walk(st.value))
+                 for x in ast.walk(expand_locals(rv.node, st.value)))
         res.inst({'rule_var store': ntext(st)[:70], 'wraps_own_entry': ok}, ok)
         if not ok:
             res.fail(Finding(RULE, rv.fq, 'store ' + tgt,
@@ -313,11 +315,32 @@ def _is_partition(a, fi, assigns, loops, depth=0):
     if isinstance(a, ast.Call) and call_name(a) == 'comb_set':
         return True
     if isinstance(a, ast.Name) and depth < 3:
-        vals = assigns.get(a.id, [])
+        vals = [v for v in assigns.get(a.id, []) if not (isinstance(v, ast.Name) and v.id == a.id)]   # x = x: no-op
         if vals:
             return all(_is_partition(v, fi, assigns, loops, depth + 1) or
                        (isinstance(v, ast.Constant) and v.value is None) for v in vals)
+        if a.id in fi.params:
+            raise AnalysisError('%s: the argument `%s` of event_dict/comb_set comes from a parameter the rule '
+                                'does not follow' % (fi.fq, a.id))
+        if a.id not in assigns:
+            # e.g. a comprehension / generator variable
+            raise AnalysisError('%s: the argument `%s` of event_dict/comb_set is not a local the rule follows'
+                                % (fi.fq, a.id))
         return False
-    if isinstance(a, ast.List) and len(a.elts) == 1 and 'range' in t and 'num_scen' in t:
-        return True          # [list(range(num_scen))]: the trivial partition
+    if isinstance(a, ast.Starred):
+        v = a.value
+        if isinstance(v, ast.Name):
+            vs = assigns.get(v.id, [])
+            if len(vs) == 1 and isinstance(vs[0], (ast.Tuple, ast.List)):
+                return all(_is_partition(e, fi, assigns, loops, depth + 1) for e in vs[0].elts)
+        raise AnalysisError('%s: starred argument `%s` of event_dict/comb_set not followed' % (fi.fq, t[:30]))
+    if isinstance(a, ast.IfExp):
+        return _is_partition(a.body, fi, assigns, loops, depth + 1) and _is_partition(a.orelse, fi, assigns, loops, depth + 1)
+    if isinstance(a, ast.List) and len(a.elts) == 1 and 'range' in t:
+        from .common import expand_locals
+        if 'num_scen' in ntext(expand_locals(fi.node, a)):
+            return True          # [list(range(num_scen))]: the trivial partition
+    if isinstance(a, ast.Name) and a.id not in assigns:
+        # e.g. a comprehension / generator variable: not followed
+        raise AnalysisError('%s: the argument `%s` of event_dict/comb_set is not a local the rule follows' % (fi.fq, a.id))
     return False
